@@ -210,7 +210,27 @@ def run(ctx):
         if bad:
             nviol += 1
             ctx.violation("property", bad[0], signature=bad[1], replay={"ops": [reset, op], "impl": [out]})
-    ctx.traces_validated = len(seen_logs)
+    # the proven predicate (Lifecycle.scan … .ok, theorem `callbacks`) evaluated by the Lean driver on the
+    # implementation's callback logs: must hold on every real trace and agree with the Python oracle
+    smap = {"connect+": "connect+", "connect-": "connect-", "alive+": "alive+", "alive-": "alive-",
+            "disconnect+": "disconnect+", "disconnect-": "disconnect-", "unsub:s1+": "unsub:0", "unsub:c1+": "unsub:1"}
+    sops, sctx = [], []
+    for op, out in zip(ops, impl):
+        if op.startswith("sched") and out not in ("HARNESS-TIMEOUT", "<missing>"):
+            evs = [smap[e] for e in kvs(out).get("log", "").split(",") if e in smap]
+            sops.append("scan " + " ".join(evs))
+            sctx.append((op, out))
+    if sops:
+        mout = ctx.lean_run(sops)
+        if mout is None:
+            proofs_ok = False
+        else:
+            for (op, out), line, got in zip(sctx, sops, mout):
+                if got != "ok=1":
+                    ctx.violation("property", f"callback log violates the ordering predicate proved for the model ({got}): {line}",
+                                  signature={"kind": "scan-not-ok"}, replay={"ops": [op], "impl": [out], "scan": line})
+            ctx.count("logs-checked-by-lean-predicate", len(mout))
+    ctx.traces_validated = len(sops)
     ctx.extra["distinct_callback_logs"] = len(seen_logs)
     for f in known:
         if f["id"] not in [k.get("id") for k in ctx.known_hits]:
